@@ -108,7 +108,7 @@ class ExprGen:
         k = r.random()
         if k < 0.4:
             g = self.same_kind_pair_gen()
-            n = r.choice([1, 1, 1, 2, 3])
+            n = r.choice([1, 1, 1, 2, 3, 4, 5, 6])
             operands = [g(d + 1) for _ in range(n + 1)]
             ops = [r.choice(RELOPS) for _ in range(n)]
             return ("chain", operands, ops)
